@@ -359,8 +359,11 @@ class Program:
         self.module_globals[mod] = globs
 
     def _check_supported(self):
+        # generators are accepted: the body of a generator is analysed like
+        # a function that is run when the iteration starts (a traversal
+        # helper); its yields are plain expression statements
         bad = (ast.AsyncFunctionDef, ast.AsyncFor, ast.AsyncWith, ast.Await,
-               ast.Yield, ast.YieldFrom, ast.Global, ast.Nonlocal)
+               ast.Global, ast.Nonlocal)
         if hasattr(ast, 'Match'):
             bad = bad + (ast.Match,)
         for f in self.funcs.values():
@@ -471,6 +474,34 @@ class Program:
                 pairs.append((_similarity(cm, fx), m, x))
         pairs.sort(reverse=True)
         used_m, used_x = set(), set()
+
+        def adopt(m, x):
+            used_m.add(m)
+            used_x.add(x)
+            fobj = self.funcs.pop(x)
+            self.renamed[m] = x
+            fobj.qualname = m
+            fobj.source_name = fobj.name
+            fobj.name = m.split('.')[-1]
+            if fobj.cls is None and '.' in m:
+                # a static method that became a module-level function:
+                # it still answers to its class-qualified name
+                fobj.cls = m.split('.')[0]
+                fobj.is_static = True
+            self.funcs[m] = fobj
+            # call sites and syntactic matches see the canonical method name
+            # when the new name is used for nothing else
+            new, old = x.split('.')[-1], m.split('.')[-1]
+            if new != old and not any(
+                    q.split('.')[-1] in (new, old) for q in self.funcs
+                    if q != m):
+                for tree in self.modules.values():
+                    for n in ast.walk(tree):
+                        if isinstance(n, ast.Attribute) and n.attr == new:
+                            n.attr = old
+                c0 = self.classes.get(x.split('.')[0]) if '.' in x else None
+                if c0 is not None and new in c0.methods:
+                    c0.methods[old] = c0.methods[new]
         for sc, m, x in pairs:
             if m in used_m or x in used_x:
                 continue
@@ -479,19 +510,49 @@ class Program:
                       (x2 == x and m2 != m and m2 not in used_m)]
             second = max(rivals) if rivals else 0.0
             if sc >= 0.72 and sc - second >= 0.12:
-                used_m.add(m)
-                used_x.add(x)
-                fobj = self.funcs.pop(x)
-                self.renamed[m] = x
-                fobj.qualname = m
-                fobj.source_name = fobj.name
-                fobj.name = m.split('.')[-1]
-                if fobj.cls is None and '.' in m:
-                    # a static method that became a module-level function:
-                    # it still answers to its class-qualified name
-                    fobj.cls = m.split('.')[0]
-                    fobj.is_static = True
-                self.funcs[m] = fobj
+                adopt(m, x)
+        # second pass: a thin wrapper whose signature changed with its name
+        # (same class, same internal callees and attributes, one candidate)
+        for m in missing:
+            if m in used_m:
+                continue
+            cm = canon[m]
+            ci = sorted(n for n in cm['intl'] if n not in unstable)
+            cands = []
+            for x in extra:
+                if x in used_x or x not in self.funcs:
+                    continue
+                fx = fps[x]
+                if fx['cls'] != cm['cls'] or fx['static'] != cm['static']:
+                    continue
+                xi = sorted(n for n in fx['intl'] if n not in unstable)
+                if ci and ci == xi and set(cm['attrs']) == set(fx['attrs']):
+                    cands.append(x)
+            if len(cands) == 1:
+                adopt(m, cands[0])
+        # third pass: a method moved verbatim to another class
+        for m in missing:
+            if m in used_m:
+                continue
+            cm = dict(canon[m])
+            cm['intl'] = [n for n in cm['intl'] if n not in unstable]
+            sc_x = []
+            for x in extra:
+                if x in used_x or x not in self.funcs:
+                    continue
+                fx = dict(fps[x])
+                if fx['cls'] == cm['cls'] or fx['cls'] is None:
+                    continue
+                fx['intl'] = [n for n in fx['intl'] if n not in unstable]
+                fx2 = dict(fx, cls=cm['cls'], attrs=cm['attrs'])
+                if _jac(cm['ext'], fx['ext']) >= 0.9 and \
+                        _jac(cm['intl'], fx['intl']) >= 0.9 and \
+                        cm['kinds'] == fx['kinds'] and \
+                        cm['nparams'] == fx['nparams'] and len(
+                            cm['ext']) + len(cm['intl']) >= 6:
+                    sc_x.append(x)
+            if len(sc_x) == 1:
+                adopt(m, sc_x[0])
 
     def parent(self, node):
         return self._parents.get(id(node))
@@ -582,6 +643,38 @@ class Program:
                 vals.append(None)
         if len(vals) == 1:
             return vals[0]
+        return None
+
+    def const_value(self, e, f, depth=0):
+        """The literal (str/int/bool/None) that expression ``e`` denotes in
+        function ``f`` through named constants: a local bound once, a
+        module-level name or a class-level attribute (``Cls.X``, ``self.X``,
+        ``cls.X``) that is a literal.  Returns the ast.Constant or None."""
+        if depth > 4 or e is None:
+            return None
+        if isinstance(e, ast.Constant):
+            return e
+        if isinstance(e, ast.Name):
+            if f is not None and self.is_local(f, e.id) and \
+                    e.id not in f.all_param_names():
+                return self.const_value(self.single_local_def(f, e.id), f,
+                                        depth + 1)
+            if f is not None:
+                v = self.module_globals.get(f.module, {}).get(e.id)
+                if v is not None:
+                    return self.const_value(v, None, depth + 1)
+            return None
+        if isinstance(e, ast.Attribute) and isinstance(e.value, ast.Name):
+            owners = []
+            if e.value.id in self.classes:
+                owners = [e.value.id]
+            elif f is not None and f.cls and e.value.id in (
+                    f.self_name, 'cls'):
+                owners = self.mro(f.cls)
+            for c in owners:
+                v = self.classes[c].class_attrs.get(e.attr)
+                if v is not None:
+                    return self.const_value(v, None, depth + 1)
         return None
 
     def enclosing_func(self, node):
